@@ -23,7 +23,8 @@ RULE = ("exhaustive enumeration: all ordered pairs and triples of the units of "
         "tools::conv constants, 7 conv identities, 12 conv-vs-UnitConverter "
         "pairs, every (module, quantity) factor of the gro/xyz/pdb/LAMMPS "
         "dump/LAMMPS data/DL_POLY readers and writers observed through a "
-        "one-bead file, every element symbol present in any table of "
+        "one-bead file (dump reader: x, xu and xs coordinate columns and the "
+        "stored box must share one Angstrom->nm factor), every element symbol present in any table of "
         "tools::Elements. Tolerances: UnitConverter identities 1e-12 "
         "relative; reference / cross-table agreement: half a unit of the 4th "
         "significant digit; identities among the independently tabulated "
